@@ -77,6 +77,20 @@ func (p *Program) LoadSpecFuncs(dir string) error {
 				}
 				sf.Body = e
 			} else {
+				if ai := strings.Index(tail, " axiom "); ai >= 0 {
+					for _, a := range strings.Split(tail[ai:], " axiom ") {
+						if a = strings.TrimSpace(a); a == "" {
+							continue
+						}
+						e, err := parser.ParseExpr(a)
+						if err != nil {
+							return fmt.Errorf("%s: %s axiom: %v", f, sf.Name, err)
+						}
+						sf.Axioms = append(sf.Axioms, e)
+						sf.AxiomSrc = append(sf.AxiomSrc, a)
+					}
+					tail = tail[:ai]
+				}
 				parts := strings.SplitN(tail, "reads", 2)
 				sf.Result = Sort(strings.TrimSpace(parts[0]))
 				if len(parts) == 2 {
